@@ -304,7 +304,7 @@ def run(name, timeout=120):
         f.write(SCRIPTS[name])
         path = f.name
     try:
-        runner = [shutil.which("isopy")] if shutil.which("isopy") else [sys.executable]
+        from vlib.e2e import runner as _runner; runner = _runner()
         env = dict(os.environ)
         env.setdefault("VERIF_REPO", "/repo")
         p = subprocess.run(runner + [path], capture_output=True, text=True, timeout=timeout, env=env, cwd=tempfile.gettempdir())
